@@ -81,6 +81,121 @@ def int_constant(rel, name):
 SETTINGS = ['indent', 'width', 'depth', 'ribbon_width', 'max_seq_len', 'sort_dict_keys']
 
 
+MUTATORS = {'add', 'append', 'appendleft', 'pop', 'popleft', 'popitem', 'update', 'setdefault', 'clear', 'remove', 'discard', 'insert', 'extend',
+            'extendleft', 'register', 'sort', 'reverse', '__setitem__', '__delitem__', 'move_to_end'}
+CACHING_DECORATORS = {'lru_cache', 'cache', 'cached_property', 'singledispatch'}
+
+
+def package_files():
+    out = []
+    root = os.path.join(REPO, 'prettyprinter')
+    for d, _, fs in sorted(os.walk(root)):
+        for f in sorted(fs):
+            if f.endswith('.py'):
+                out.append(os.path.relpath(os.path.join(d, f), REPO))
+    return out
+
+
+def _is_mutable_display(v):
+    return isinstance(v, (ast.Dict, ast.List, ast.Set, ast.ListComp, ast.DictComp, ast.SetComp)) or (
+        isinstance(v, ast.Call) and isinstance(v.func, ast.Name) and v.func.id in ('dict', 'list', 'set', 'defaultdict', 'OrderedDict', 'deque', 'Counter',
+                                                                                    'WeakKeyDictionary', 'WeakValueDictionary', 'WeakSet', 'bytearray'))
+
+
+def shared_state():
+    """Inventory of the state in the package that outlives one call, as far as the syntax shows it:
+      <file>:global:<name>     a module-level name rebound from inside a function (`global` statement)
+      <file>:mutated:<name>    a module-level name that a function mutates in place (item / attribute store or delete, mutating method call)
+      <file>:decorator:<name>  a function wrapped by lru_cache / cache / cached_property / singledispatch
+      <file>:default:<fn>      a mutable default argument
+      <file>:classattr:<Class>.<name>  a mutable display in a class body
+    Everything the hand-written models treat as state must be in this list, and the list must contain nothing else
+    (PP/Props/StateInventory.lean)."""
+    out = []
+    for rel in package_files():
+        tree = _parse(rel)
+        short = rel[len('prettyprinter/'):]
+        modnames = set()
+        for node in tree.body:
+            targets = []
+            if isinstance(node, ast.Assign):
+                targets = node.targets
+            elif isinstance(node, (ast.AnnAssign, ast.AugAssign)):
+                targets = [node.target]
+            elif isinstance(node, (ast.FunctionDef, ast.ClassDef)):
+                modnames.add(node.name)
+            elif isinstance(node, (ast.Import, ast.ImportFrom)):
+                for a in node.names:
+                    modnames.add((a.asname or a.name).split('.')[0])
+            for t in targets:
+                for n in ast.walk(t):
+                    if isinstance(n, ast.Name):
+                        modnames.add(n.id)
+        found = set()
+        for fn in ast.walk(tree):
+            if not isinstance(fn, (ast.FunctionDef, ast.AsyncFunctionDef, ast.Lambda)):
+                continue
+            if not isinstance(fn, ast.Lambda):
+                for dec in fn.decorator_list:
+                    d = dec.func if isinstance(dec, ast.Call) else dec
+                    name = d.attr if isinstance(d, ast.Attribute) else getattr(d, 'id', None)
+                    if name in CACHING_DECORATORS:
+                        found.add('%s:decorator:%s' % (short, fn.name))
+                for dflt in list(fn.args.defaults) + [d for d in fn.args.kw_defaults if d is not None]:
+                    if _is_mutable_display(dflt):
+                        found.add('%s:default:%s' % (short, fn.name))
+            # names local to this function (parameters and plain assignments) shadow module names
+            local = set()
+            args = fn.args
+            for a in args.posonlyargs + args.args + args.kwonlyargs + ([args.vararg] if args.vararg else []) + ([args.kwarg] if args.kwarg else []):
+                local.add(a.arg)
+            globs = set()
+            body = fn.body if isinstance(fn.body, list) else [fn.body]
+            for st in body:
+                for n in ast.walk(st):
+                    if isinstance(n, ast.Global):
+                        globs.update(n.names)
+                    elif isinstance(n, ast.Name) and isinstance(n.ctx, ast.Store):
+                        local.add(n.id)
+                    elif isinstance(n, ast.arg):
+                        local.add(n.arg)
+            local -= globs
+            for g in globs:
+                found.add('%s:global:%s' % (short, g))
+
+            def base_name(e):
+                while isinstance(e, (ast.Attribute, ast.Subscript)):
+                    e = e.value
+                return e.id if isinstance(e, ast.Name) else None
+            for st in body:
+                for n in ast.walk(st):
+                    tgt = None
+                    if isinstance(n, (ast.Subscript, ast.Attribute)) and isinstance(n.ctx, (ast.Store, ast.Del)):
+                        tgt = base_name(n.value)
+                    elif isinstance(n, ast.Call) and isinstance(n.func, ast.Attribute) and n.func.attr in MUTATORS:
+                        tgt = base_name(n.func.value)
+                    if tgt and tgt in modnames and tgt not in local and tgt != 'self':
+                        found.add('%s:mutated:%s' % (short, tgt))
+        for cls in ast.walk(tree):
+            if isinstance(cls, ast.ClassDef):
+                for st in cls.body:
+                    if isinstance(st, ast.Assign) and _is_mutable_display(st.value):
+                        for t in st.targets:
+                            if isinstance(t, ast.Name) and not (t.id.startswith('__') and t.id.endswith('__')):
+                                found.add('%s:classattr:%s.%s' % (short, cls.name, t.id))
+        # module-level singledispatch objects (pretty_dispatch = singledispatch(...)) are registries
+        for node in tree.body:
+            if isinstance(node, ast.Assign) and isinstance(node.value, ast.Call):
+                f = node.value.func
+                name = f.attr if isinstance(f, ast.Attribute) else getattr(f, 'id', None)
+                if name in CACHING_DECORATORS:
+                    for t in node.targets:
+                        if isinstance(t, ast.Name):
+                            found.add('%s:decorator:%s' % (short, t.id))
+        out.extend(sorted(found))
+    return out
+
+
 def lean_str_list(xs):
     return '[' + ', '.join('"%s"' % x for x in xs) + ']'
 
@@ -108,6 +223,8 @@ def generate():
     lines.append('def maxPracticalRibbonWidth : Nat := %d' % int_constant('prettyprinter/prettyprinter.py', 'MAX_PRACTICAL_RIBBON_WIDTH'))
     lines.append('def defaultMaxSeqLen : Nat := %s' % cfg.get('max_seq_len', '0'))
     lines.append('def defaultIndent : Nat := %s' % cfg.get('indent', '0'))
+    lines.append('/-- state that outlives one call, as far as the syntax of the package shows it (see translator.shared_state) -/')
+    lines.append('def sharedState : List String := ' + lean_str_list(shared_state()))
     lines.append('')
     lines.append('end PP.Generated')
     return '\n'.join(lines) + '\n'
